@@ -7,6 +7,8 @@ mod s_ref;
 mod s_run;
 mod s_props;
 mod s_main;
+mod s_c10;
+mod s_c13;
 mod t_c08;
 mod t_c12;
 mod t_c18;
@@ -33,6 +35,8 @@ fn check(prop: &str, tier: &str) -> i32 {
       tcommon::run_scenarios(&mut r, t_catalogue(prop).unwrap(), tier);
       report::finish(r)
     }
+    "C10" => report::finish(s_c10::check(tier)),
+    "C13" => report::finish(s_c13::check(tier)),
     _ => match s_main::check(prop, tier) {
       Some(r) => report::finish(r),
       None => {
